@@ -109,6 +109,10 @@ class ArithOptimal(Contract):
                             shapes += [([2], [2]), ([2], [])]
                         for shx, shy in shapes:
                             yield dict(op=op, x=list(x), y=list(y), method=method, shx=shx, shy=shy)
+                        if x[1] == 3 and y[1] == 3 and x[0] == y[0] and x[2] <= 1 <= y[2]:
+                            # 2-d operands, one or both in Fortran (transposed) memory order: the result is positional
+                            for fox, foy in ((True, False), (True, True)):
+                                yield dict(op=op, x=list(x), y=list(y), method=method, shx=[2, 2], shy=[2, 2], fox=fox, foy=foy)
                         if method == 'raw':
                             # the same operation through fxpmath.functions, through the NumPy ufunc, and with a class-wide template
                             # of the opposite signedness installed (results are then built from a copy of the template and resized)
@@ -129,10 +133,10 @@ class ArithOptimal(Contract):
         sx, wx, fx = cfg['x']; sy, wy, fy = cfg['y']
         x = make_fxp(P, sx, wx, fx, codes=inp['cx'], shape=tuple(cfg['shx']), cfg={'op_method': cfg['method'], 'rounding': 'around'},
                      status={'inaccuracy': inp['ix'], 'overflow': inp.get('ox', False), 'underflow': inp.get('ux', False)},
-                     vdtype=int if (cfg.get('vint') and fx <= 0) else float)
+                     vdtype=int if (cfg.get('vint') and fx <= 0) else float, forder=bool(cfg.get('fox')))
         y = make_fxp(P, sy, wy, fy, codes=inp['cy'], shape=tuple(cfg['shy']), cfg={'overflow': 'wrap'},
                      status={'inaccuracy': inp['iy'], 'overflow': inp.get('oy', False), 'underflow': inp.get('uy', False)},
-                     vdtype=int if (cfg.get('vint') and fy <= 0) else float)
+                     vdtype=int if (cfg.get('vint') and fy <= 0) else float, forder=bool(cfg.get('foy')))
         if cfg.get('from_item'):
             xa = make_fxp(P, sx, wx, fx, codes=[inp['cx'][0], 0], shape=(2,), cfg={'op_method': cfg['method'], 'rounding': 'around'}, vdtype=float)
             x = xa[0]
